@@ -748,6 +748,11 @@ func GenCrashScript(r *Rng, kind string, hist map[string]int) []string {
 		add("mergebatchcrash %d %d %d", 4+r.Intn(12), r.Pick(20, 60, 150, 400), r.Intn(1<<30))
 		hist["crash_open_batch_while_merge_scans"]++
 	}
+	if kind == "batch" && r.Chance(1, 2) {
+		// pages reach the disk in any order: a block in the middle of an unsynced batch is lost, the rest of it is not
+		add("holebatch %d %d", 2+r.Intn(5), 1+r.Intn(2))
+		hist["crash_batch_with_a_lost_middle_block"]++
+	}
 	hist["crash_"+kind]++
 	return out
 }
